@@ -1,5 +1,263 @@
-import BioCantor.Spec.Transcript
-import BioCantor.Model.Transcript
+/-
+  C06 — Genome, transcript and CDS coordinate systems of a transcript commute.
+
+  Property theorems only (helper lemmas live in BioCantor/Proofs/Tx*.lean).
+
+  `t : Model.Transcript` is what `TranscriptInterval.__init__` keeps: the exon location `E = t.exons`
+  (`chromosome_location`, always a CompoundInterval), the optional CDS location `D = t.cds`, and the
+  length of the chromosome it sits on.  `WFT t` = what the modelled constructor establishes
+  (`constructor_establishes_wf`): both block lists as `CompoundInterval.__init__` leaves them, same strand.
+  `specOf t` is the same data seen by `Spec/Transcript.lean`, whose predicates speak only about
+  `Spec.bases`.  `ans` turns a result into the observable answer (`some v` / `none` = raised).
+
+  Hypotheses used below, and only where needed:
+    `t.exons.NonOverlap`     the exons do not overlap each other (0-bp gaps, zero-length exons allowed)
+    `Coding t d`             `t.cds = some d`, directional strand, `NonOverlap E`, and `Sub D E`:
+                             `bases D = (bases E)[k : k + len D]`, `D` non-empty  (`Spec.isSub`)
+-/
+import BioCantor.Proofs.TxMain
+import BioCantor.Proofs.TxInterval
+import BioCantor.Proofs.TxIntrons
 namespace BioCantor.Props.C06
-theorem placeholder : True := trivial
+open BioCantor BioCantor.Spec BioCantor.Model BioCantor.Model.Transcript BioCantor.Proofs
+
+/-! ### the constructor -/
+
+/-- Every transcript the modelled constructor returns is well formed, on the requested strand. -/
+theorem constructor_establishes_wf (exons : List Blk) (st : Strand) (cds : Option (List Blk)) (plen : Option Nat)
+    (t : Transcript) (h : mkTranscript exons st cds plen = .ok t) : WFT t ∧ t.exons.strand = st :=
+  mkTranscript_wf exons st cds plen t h
+
+/-! ### position conversions: each method is the lookup the spec prescribes
+    (index in / element of `bases E`, `bases D`); everything outside the source system is refused -/
+
+/-- chromosome → transcript = index of `p` in `bases E`; positions not on an exon are refused. -/
+theorem chrom_to_transcript_spec (t : Transcript) (h : WFT t) (p : Int) :
+    okC2T (specOf t) p (ans (t.sequencePosToTranscript p)) = true := by
+  unfold okC2T; rw [ans_c2t t h]; simp
+
+/-- transcript → chromosome = `(bases E)[r]`; `r < 0` and `r ≥ len` are refused. -/
+theorem transcript_to_chrom_spec (t : Transcript) (r : Int) :
+    okT2C (specOf t) r (ans (t.transcriptPosToSequence r)) = true := by
+  unfold okT2C; rw [ans_t2c t]; simp
+
+/-- chromosome → CDS = index of `p` in `bases D`; non-coding positions / non-coding transcripts refused. -/
+theorem chrom_to_cds_spec (t : Transcript) (h : WFT t) (p : Int) :
+    okC2D (specOf t) p (ans (t.sequencePosToCds p)) = true := by
+  unfold okC2D; rw [ans_c2d t h]; simp
+
+/-- CDS → chromosome = `(bases D)[c]`. -/
+theorem cds_to_chrom_spec (t : Transcript) (c : Int) :
+    okD2C (specOf t) c (ans (t.cdsPosToSequence c)) = true := by
+  unfold okD2C; rw [ans_d2c t]; simp
+
+/-- CDS → transcript = transcript index of the `c`-th CDS base. -/
+theorem cds_to_transcript_spec (t : Transcript) (h : WFT t) (c : Int) :
+    okD2T (specOf t) c (ans (t.cdsPosToTranscript c)) = true := by
+  unfold okD2T; rw [ans_d2t t h]; simp
+
+/-- transcript → CDS = CDS index of the `r`-th transcript base (refused in the UTRs). -/
+theorem transcript_to_cds_spec (t : Transcript) (h : WFT t) (r : Int) :
+    okT2D (specOf t) r (ans (t.transcriptPosToCds r)) = true := by
+  unfold okT2D; rw [ans_t2d t h]; simp
+
+/-- amino-acid index = CDS position divided by three. -/
+theorem amino_acid_index_spec (t : Transcript) (h : WFT t) (p : Int) :
+    okAA (specOf t) p (ans (t.sequencePosToAminoAcid p)) = true := by
+  unfold okAA; rw [ans_aa t h]; simp
+
+/-- …stated directly on the two calls: the amino-acid index is the CDS position `/ 3`. -/
+theorem amino_acid_is_cds_pos_div_3 (t : Transcript) (p c : Int) (h : t.sequencePosToCds p = .ok c) :
+    t.sequencePosToAminoAcid p = .ok (c / 3) := by
+  unfold sequencePosToAminoAcid; rw [h]; rfl
+
+/-! ### paths agree -/
+
+/-- chromosome→CDS equals chromosome→transcript→CDS at EVERY position (same value, or both refused). -/
+theorem chrom_to_cds_via_transcript (t : Transcript) (h : WFT t) (d : Loc) (hc : Coding t d) (p : Int) :
+    ans (t.sequencePosToCds p) = ans (t.sequencePosToTranscript p >>= t.transcriptPosToCds) :=
+  path_model t h d hc p
+
+/-- the same clause in the form the harness evaluates on the real library's composed calls -/
+theorem chrom_to_cds_via_transcript_checked (t : Transcript) (h : WFT t) (d : Loc) (hc : Coding t d) (p : Int) :
+    okPath (expC2D (specOf t) p) (ans (t.sequencePosToTranscript p >>= t.transcriptPosToCds)) = true := by
+  unfold okPath; rw [← path_model t h d hc p, ans_c2d t h]; simp
+
+/-! ### each conversion is inverted by its counterpart -/
+
+/-- transcript→chromosome inverts chromosome→transcript (all layouts). -/
+theorem transcript_to_chrom_inverts (t : Transcript) (h : WFT t) (p r : Int)
+    (hp : t.sequencePosToTranscript p = .ok r) : t.transcriptPosToSequence r = .ok p :=
+  t2c_of_c2t t h p r hp
+
+/-- chromosome→transcript inverts transcript→chromosome (needs `NonOverlap E`: otherwise a position
+    occurs twice in the transcript and no inverse exists). -/
+theorem chrom_to_transcript_inverts (t : Transcript) (h : WFT t) (hno : t.exons.NonOverlap) (r p : Int)
+    (hr : t.transcriptPosToSequence r = .ok p) : t.sequencePosToTranscript p = .ok r :=
+  c2t_of_t2c t h hno r p hr
+
+/-- CDS→chromosome inverts chromosome→CDS. -/
+theorem cds_to_chrom_inverts (t : Transcript) (h : WFT t) (p c : Int)
+    (hp : t.sequencePosToCds p = .ok c) : t.cdsPosToSequence c = .ok p :=
+  d2c_of_c2d t h p c hp
+
+/-- chromosome→CDS inverts CDS→chromosome. -/
+theorem chrom_to_cds_inverts (t : Transcript) (h : WFT t) (d : Loc) (hc : Coding t d) (c p : Int)
+    (hq : t.cdsPosToSequence c = .ok p) : t.sequencePosToCds p = .ok c :=
+  c2d_of_d2c t h d hc c p hq
+
+/-- transcript→CDS inverts CDS→transcript. -/
+theorem transcript_to_cds_inverts (t : Transcript) (h : WFT t) (d : Loc) (hc : Coding t d) (c r : Int)
+    (hq : t.cdsPosToTranscript c = .ok r) : t.transcriptPosToCds r = .ok c :=
+  t2d_of_d2t t h d hc c r hq
+
+/-- CDS→transcript inverts transcript→CDS. -/
+theorem cds_to_transcript_inverts (t : Transcript) (h : WFT t) (hno : t.exons.NonOverlap) (r c : Int)
+    (hq : t.transcriptPosToCds r = .ok c) : t.cdsPosToTranscript c = .ok r :=
+  d2t_of_t2d t h hno r c hq
+
+/-! ### round trips, in the form the harness evaluates them (identity inside the source system,
+    refusal outside — this is also the "positions outside the source system are rejected" clause) -/
+
+theorem roundtrip_transcript (t : Transcript) (h : WFT t) (hd : t.exons.strand ≠ .unstranded)
+    (hno : t.exons.NonOverlap) (r : Int) :
+    okRoundTrip (inTx (specOf t) r) r (ans (t.transcriptPosToSequence r >>= t.sequencePosToTranscript)) = true :=
+  rt_t_model t h hd hno r
+
+theorem roundtrip_chrom (t : Transcript) (h : WFT t) (hd : t.exons.strand ≠ .unstranded) (p : Int) :
+    okRoundTrip (inExons (specOf t) p) p (ans (t.sequencePosToTranscript p >>= t.transcriptPosToSequence)) = true :=
+  rt_c_model t h hd p
+
+theorem roundtrip_cds_via_transcript (t : Transcript) (h : WFT t) (d : Loc) (hc : Coding t d) (c : Int) :
+    okRoundTrip (inCds (specOf t) c) c (ans (t.cdsPosToTranscript c >>= t.transcriptPosToCds)) = true :=
+  rt_d_model t h d hc c
+
+theorem roundtrip_cds_via_chrom (t : Transcript) (h : WFT t) (d : Loc) (hc : Coding t d) (c : Int) :
+    okRoundTrip (inCds (specOf t) c) c (ans (t.cdsPosToSequence c >>= t.sequencePosToCds)) = true :=
+  rt_dc_model t h d hc c
+
+theorem roundtrip_transcript_via_cds (t : Transcript) (h : WFT t) (d : Loc) (hc : Coding t d) (r : Int) :
+    okRoundTrip (match expT2C (specOf t) r with | some p => inCdsChrom (specOf t) p | none => false) r
+      (ans (t.transcriptPosToCds r >>= t.cdsPosToTranscript)) = true :=
+  rt_td_model t h d hc r
+
+/-! ### UTR / CDS / UTR -/
+
+/-- `get_5p_interval`: the transcript bases before the CDS, in order; a location without bases (never an
+    error) when there are none; refused on a non-coding transcript. -/
+theorem utr5_spec (t : Transcript) (h : WFT t) : okUtr5 (specOf t) (ans t.get5pInterval) = true :=
+  utr5_ok t h
+
+/-- `get_3p_interval`: the transcript bases after the CDS. -/
+theorem utr3_spec (t : Transcript) (h : WFT t) : okUtr3 (specOf t) (ans t.get3pInterval) = true :=
+  utr3_ok t h
+
+/-- 5' UTR, CDS and 3' UTR are both returned, are disjoint, come in that order along the transcript
+    and together are exactly the exons: their base lists concatenate to `bases E`, which has no repeats. -/
+theorem utr_cds_utr_tile_the_transcript (t : Transcript) (h : WFT t) (d : Loc) (hc : Coding t d) :
+    ∃ u5 u3, t.get5pInterval = .ok u5 ∧ t.get3pInterval = .ok u3 ∧
+      locationBases u5 ++ bases d ++ locationBases u3 = bases t.exons ∧
+      (locationBases u5 ++ bases d ++ locationBases u3).Nodup :=
+  utrs_tile_model t h d hc
+
+/-- the 5' UTR has no base exactly when the CDS starts on the first transcript base -/
+theorem utr5_empty_iff_cds_at_5p_end (t : Transcript) (h : WFT t) (d : Loc) (hc : Coding t d) (u5 : Location)
+    (h5 : t.get5pInterval = .ok u5) :
+    locationBases u5 = [] ↔ t.cdsPosToTranscript 0 = .ok 0 :=
+  utr5_empty_iff t h d hc u5 h5
+
+/-- the 3' UTR has no base exactly when the CDS ends on the last transcript base -/
+theorem utr3_empty_iff_cds_at_3p_end (t : Transcript) (h : WFT t) (d : Loc) (hc : Coding t d) (u3 : Location)
+    (h3 : t.get3pInterval = .ok u3) :
+    locationBases u3 = [] ↔ t.cdsPosToTranscript ((d.len : Int) - 1) = .ok ((t.exons.len : Int) - 1) :=
+  utr3_empty_iff t h d hc u3 h3
+
+/-! ### span and introns -/
+
+/-- `chromosome_span` = [smallest exon start, largest exon end) on the transcript's strand. -/
+theorem span_spec (t : Transcript) (h : WFT t) : okSpan (specOf t) (ans t.chromosomeSpan) = true :=
+  span_ok t h
+
+/-- introns = span − exons as position sets; the empty location when there is none.
+    FULL statement (no `hne`): `∀ t, WFT t → okIntrons (specOf t) (ans t.chromosomeGapsLocation) = true`.
+    It is FALSE for the code as it is (finding F-C06a): a zero-length first or last exon stretches
+    `chromosome_span` but `gap_list` drops empty blocks before pairing neighbours, so the stretch between
+    that exon and its neighbour is part of the span, covered by no exon, and not reported as intron
+    (exons `[0,0) [3,5)`: span `[0,5)`, introns = none).  Proved here on the complement: no exon is empty. -/
+theorem introns_spec_partial (t : Transcript) (h : WFT t) (hne : noEmptyBlock t.exons.blocks = true) :
+    okIntrons (specOf t) (ans t.chromosomeGapsLocation) = true :=
+  introns_ok t h hne
+
+/-- F-C06a witness: for exons `[0,0) [3,5)` (accepted by the constructor) the modelled current code answers
+    "no introns" although positions 0, 1, 2 lie in the span `[0,5)` and on no exon. -/
+theorem introns_zero_length_terminal_exon_deviates :
+    WFT ⟨⟨[(0, 0), (3, 5)], .plus⟩, none, none⟩ ∧
+    okIntrons (specOf ⟨⟨[(0, 0), (3, 5)], .plus⟩, none, none⟩)
+      (ans (Transcript.chromosomeGapsLocation ⟨⟨[(0, 0), (3, 5)], .plus⟩, none, none⟩)) = false := by
+  refine ⟨⟨by decide, by simp⟩, ?_⟩
+  unfold Transcript.chromosomeGapsLocation
+  rw [gaps_zero_length_first_exon]; decide
+
+/-! ### interval conversions -/
+
+/-- transcript interval → chromosome: the bases `(bases E)[rs:re]`, composed strand (C01 interval clause on `E`). -/
+theorem transcript_interval_to_chrom_spec (t : Transcript) (h : WFT t) (rs re : Int) (rst : Strand) :
+    okTI2C (specOf t) rs re rst (ans (t.transcriptIntervalToSequence rs re rst)) = true :=
+  ti2c_ok t h rs re rst
+
+/-- CDS interval → chromosome. -/
+theorem cds_interval_to_chrom_spec (t : Transcript) (h : WFT t) (rs re : Int) (rst : Strand) :
+    okDI2C (specOf t) rs re rst (ans (t.cdsIntervalToSequence rs re rst)) = true :=
+  di2c_ok t h rs re rst
+
+/-- chromosome interval → transcript: exactly the transcript indices of the exonic positions of the
+    interval; refused when it shares no position with the exons or is not an interval of the chromosome. -/
+theorem chrom_interval_to_transcript_spec (t : Transcript) (h : WFT t) (s e : Int) (st : Strand) :
+    okCI2T (specOf t) s e st (ans (t.sequenceIntervalToTranscript s e st)) = true :=
+  ci2t_ok t h s e st
+
+/-- chromosome interval → CDS. -/
+theorem chrom_interval_to_cds_spec (t : Transcript) (h : WFT t) (s e : Int) (st : Strand) :
+    okCI2D (specOf t) s e st (ans (t.sequenceIntervalToCds s e st)) = true :=
+  ci2d_ok t h s e st
+
+/-! ### non-vacuity: a minus-strand transcript with a 0-bp gap, CDS starting at an exon boundary and
+    ending inside the last (5'-most on the chromosome) exon satisfies every hypothesis used above -/
+
+def exTx : Transcript :=
+  ⟨⟨[(0, 6), (8, 10), (10, 12)], .minus⟩, some ⟨[(5, 6), (8, 10)], .minus⟩, some 14⟩
+
+example : WFT exTx :=
+  ⟨by decide, fun d hd => by
+    have : d = ⟨[(5, 6), (8, 10)], .minus⟩ := by simp [exTx] at hd; exact hd.symm
+    subst this; exact ⟨by decide, rfl⟩⟩
+example : exTx.exons.NonOverlap := by decide
+example : noEmptyBlock exTx.exons.blocks = true := by decide
+example : exTx.exons.strand ≠ .unstranded := by decide
+example : Coding exTx ⟨[(5, 6), (8, 10)], .minus⟩ := ⟨rfl, by decide, by decide⟩
+example : exTx.sequencePosToTranscript 9 = .ok 2 := by rfl
+example : exTx.transcriptPosToCds 2 = .ok 0 := by rfl
+example : exTx.cdsPosToTranscript 0 = .ok 2 := by rfl
+example : exTx.sequencePosToCds 5 = .ok 2 := by rfl
+example : exTx.sequencePosToAminoAcid 5 = .ok 0 := by rfl
+example : exTx.transcriptPosToSequence 2 = .ok 9 := by rfl
+example : exTx.cdsPosToSequence 2 = .ok 5 := by rfl
+-- the hypotheses `get5pInterval = .ok u5` / `get3pInterval = .ok u3` of the two emptiness theorems are met:
+example : ∃ u5 u3, exTx.get5pInterval = .ok u5 ∧ exTx.get3pInterval = .ok u3 := by
+  have hw : WFT exTx := ⟨by decide, fun d hd => by
+    have : d = ⟨[(5, 6), (8, 10)], .minus⟩ := by simp [exTx] at hd; exact hd.symm
+    subst this; exact ⟨by decide, rfl⟩⟩
+  obtain ⟨u5, u3, h5, h3, _⟩ := utr_cds_utr_tile_the_transcript exTx hw _ ⟨rfl, by decide, by decide⟩
+  exact ⟨u5, u3, h5, h3⟩
+-- the modelled constructor returns a transcript (single exon, coding):
+example : mkTranscript [(2, 9)] .plus (some [(3, 8)]) none = .ok ⟨⟨[(2, 9)], .plus⟩, some ⟨[(3, 8)], .plus⟩, none⟩ := by
+  simp [mkTranscript, initializeLocation, Model.chromosomeLocation, mkSingle, mkCompoundLoc, sortBlocks,
+    blocksValid, Loc.len, blocksLen, Blk.len, bind, Except.bind, pure, Except.pure]
+example : exTx.transcriptPosToCds 0 = .error .InvalidPosition := by rfl      -- a 5' UTR base has no CDS position
+-- the CDS reaching the 3' end of a multi-exon transcript: an empty (zero-length) UTR, not an error
+example : (⟨⟨[(0, 10), (20, 30)], .plus⟩, some ⟨[(5, 10), (20, 30)], .plus⟩, none⟩ : Transcript).get3pInterval
+    = .ok (.single (30, 30) .plus) := by rfl
+-- (values of `get_5p_interval`, `chromosome_gaps_location`, … on concrete transcripts go through the
+--  constructor's merge sort, which the kernel does not unfold; they are exercised by the correspondence run)
+
 end BioCantor.Props.C06
